@@ -294,7 +294,7 @@ impl Kurtosis for Geometric {
 impl Entropy for Geometric {
     fn entropy(&self) -> f64 {
         (-(1.0 - self.p))
-            .mul_add((1.0 - self.p).log2(), -self.p * self.p.log2())
+            .mul_add((1.0 - self.p).ln(), -self.p * self.p.ln())
             / self.p
     }
 }
